@@ -16,7 +16,7 @@ REPO = os.environ.get("VERIF_REPO", "/repo")
 # Packages holding replicated state: compiled against internal/verifmc/vtime instead of "time"
 # (only the import line of a copy is rewritten, at build time, from the current working tree or
 # from the mutant overlay), so a replica can run with a shifted clock (C01).
-VTIME_DIRS = ["agent/consul/state", "agent/consul/fsm", "agent/structs", "internal/storage/inmem", "internal/storage/raft", "agent/consul"]
+VTIME_DIRS = ["agent/consul/state", "agent/consul/fsm", "agent/structs", "internal/storage/inmem", "internal/storage/raft", "agent/consul", "agent/consul/stream"]
 TIME_IMPORT = re.compile(r'^(\s*)"time"\s*$', re.M)
 
 
